@@ -98,6 +98,17 @@ def handle (req : Sexp) : Sexp :=
     match sts? ss, k.asNat?, Expr.ofSexp? m, Expr.ofSexp? e' with
     | some ss, some k, some m, some e' => stsS (muInsert ss k mu m e')
     | _, _, _, _ => bad
+  | .list [.atom "nonrandom", zf, dists, ss] =>
+    let dist? : Sexp → Option Dist := fun x =>
+      match x with
+      | .list [rvs, ps] => do some ⟨← symList? rvs, ← symList? ps⟩
+      | _ => none
+    match symList? zf, dists.asList?.bind (·.mapM dist?), sts? ss with
+    | some zf, some dists, some ss =>
+      .list [Sexp.ofStrs (nonRandomSyms zf dists),
+             .list ((keptDists zf dists).map (fun d => Sexp.ofStrs d.rvs)),
+             stsS (replaceNonRandom zf dists ss)]
+    | _, _, _ => bad
   | .list [.atom "evalpred", ss, .atom dv, zero, inits, mode, given] =>
     match sts? ss, symList? zero, mapping? inits mode given with
     | some ss, some zero, some m => .list [optE (evaluatePred ss dv zero m), Sexp.ofBool (obsSafe ss dv)]
